@@ -3,7 +3,7 @@ import os
 from .core import BIN, HARNESS, LEAN, sh
 
 T1 = [("status", "TrStatus"), ("grpcerr", "TrGrpcerr"), ("sampler", "TrSampler")]
-T2 = [("validation", "FactsValidation"), ("hasher", "FactsHasher")]
+T2 = [("validation", "FactsValidation"), ("hasher", "FactsHasher"), ("maprange", "FactsMapRange")]
 
 
 def regen_all():
